@@ -128,6 +128,13 @@ def run(ck):
                         dict(inp, units=uc), du)
         except Exception as e:
             ck.fail("raises:ft:units-context", "transform inside a units context raised %r" % (e,), inp)
+        if upper and len(Fd) == 2 * N and len(bd) == N:
+            # upper-half axes: the Hermitian extension + 2N-point transform, and the upper half of the complete inverse
+            z2 = complex(math.cos(PI / N), math.sin(PI / N))
+            emit("ftu %d %s %s %s" % (N, cfrac(dt), cfrac(z2), " ".join(cfrac(v) for v in y)), " ".join(cfrac(v) for v in Fd), "ft")
+            with energy_units("int"):
+                cw = float(F.axis.step) / (2 * PI)
+            emit("iftu %d %s %s %s" % (2 * N, cfrac(cw), cfrac(z2.conjugate()), " ".join(cfrac(v) for v in Fd)), " ".join(cfrac(v) for v in bd), "ft")
         if not upper:
             z = complex(math.cos(2 * PI / N), math.sin(2 * PI / N))
             emit("ft %d %s %s %s" % (N, cfrac(dt), cfrac(z), " ".join(cfrac(v) for v in y)), " ".join(cfrac(v) for v in Fd), "ft")
